@@ -29,6 +29,11 @@ namespace Mdw
     extractor, in which case the live correspondence alone carries the tie). -/
 theorem gather_order_agrees : Src.fillThreadStackSteps = none ∨ Src.fillThreadStackSteps = some gatherSteps := by decide
 
+/-- **Proof obligation over the regenerated source.** The thread-list loop gathers the crash context's thread without a
+    stack-length cap (`gatherThread` passes `isCrash = true`, which `maxStackLen` turns into "no cap") — or the loop is
+    no longer recognisable to the extractor. -/
+theorem gather_crash_unlimited : Src.crashThreadUnlimited = none ∨ Src.crashThreadUnlimited = some true := by decide
+
 /-- the reader returns what was asked for, from the target's memory `mem` -/
 def ReadsExactly (env : GEnv) (mem : Nat → UInt8) : Prop :=
   ∀ a n bs, env.read a n = some bs → bs = (List.range n).map (fun k => mem (a + k))
